@@ -409,9 +409,10 @@ func driverRT(c *Ctx) {
 			_ = wb.ToBytes()
 			_ = buildComplete(g, gm, wb, 0).ToBytes()
 			_ = mkWide(3).ToBytes()
+			same := string(keptItem) == string(copyItem) && string(keptMsg) == string(copyMsg) // (judged before anything else is encoded)
 			ev := decodeEvent(copyMsg)
 			ev["ev"], ev["how"], ev["msg"] = "rt", "kept", projMsg(ma)
-			ev["keptsame"] = string(keptItem) == string(copyItem) && string(keptMsg) == string(copyMsg)
+			ev["keptsame"] = same
 			c.emit(i, ev)
 			c.count("rt.kept")
 		}
